@@ -991,6 +991,10 @@ type PW = PairAlg<FreeWord, LetterCount>;
 type PV = PairAlg<LetterCount, FreeWord>;
 type PH = PairAlg<HashWord, PairAlg<LetterCount, HashWord>>;
 type PN = PairAlg<MinI64, PairAlg<MaxI64, SumI64>>;
+type SumAddZ6 = SumAddZm<6>;
+type SumAddZ2 = SumAddZm<2>;
+type SumAddZ256 = SumAddZm<256>;
+type SumAddZ12 = SumAddZm<12>;
 type XT1 = ProdAlg<MinAddI64, TouchCount>;
 type XT2 = ProdAlg<TouchCount, MaxAddI64>;
 type XT3 = ProdAlg<ProdAlg<SumAddI64, TouchCount>, MinAddI64>;
@@ -1032,6 +1036,11 @@ macro_rules! for_each_algebra {
         $mac!(PH, 2);
         $mac!(PN, 1);
         $mac!(TouchCount, 1);
+        $mac!(SumAddZ6, 2);
+        $mac!(SumAddZ2, 1);
+        $mac!(SumAddZ256, 1);
+        $mac!(SumAddZ12, 1);
+        $mac!(SumCat, 2);
         $mac!(XT1, 3);
         $mac!(XT2, 2);
         $mac!(XT3, 2);
